@@ -36,6 +36,7 @@
 import GraphiqModel.Proofs.MetricsHistCheck
 import GraphiqModel.Proofs.MetricsHistLongest
 import GraphiqModel.Proofs.MetricsHistChain
+import GraphiqModel.Proofs.MetricsHistIso
 import GraphiqModel.Properties.C12
 namespace Graphiq.C18
 open Graphiq Graphiq.Dag Graphiq.Metrics
@@ -382,6 +383,86 @@ theorem metrics_eq_spec_of_wires {c : Dag} {P : Reg → List NodeId} (g : Good c
 theorem canonical_schedule_is_schedule {c : Dag} {P : Reg → List NodeId} (g : Good c P) : Sched c P (compSched c) :=
   compSched_sched g
 
+/-! ### the metrics are functions of the per-register operation sequences -/
+
+/-- a circuit satisfying DagInv has a node iff it has a register -/
+theorem nodes_nonempty_iff_register {c : Dag} {P : Reg → List NodeId} (g : Good c P) : c.nodeIds ≠ [] ↔ ∃ r, c.live r := by
+  constructor
+  · intro hne
+    obtain ⟨n, hn⟩ := List.exists_mem_of_ne_nil _ hne
+    cases n with
+    | inp r => exact ⟨r, (g.inv.inp_iff r).mp hn⟩
+    | out r => exact ⟨r, (g.inv.out_iff r).mp hn⟩
+    | op i =>
+      obtain ⟨o, ho⟩ := mem_nodeIds.mp hn
+      have hwf := g.inv.op_wf i o ho
+      cases hq : o.qregs with
+      | nil => exact absurd hq hwf.qregs_ne
+      | cons r t =>
+        have hr : r ∈ o.qregs := by rw [hq]; simp
+        have hm := (g.mem.mem_q i o ho r (hwf.qregs_quantum r hr)).mpr hr
+        refine ⟨r, ?_⟩
+        by_cases hl : c.live r
+        · exact hl
+        · rw [g.inv.dead r hl] at hm; simp at hm
+  · rintro ⟨r, hl⟩ h
+    have := (g.inv.inp_iff r).mpr hl
+    rw [h] at this; simp at this
+
+/-- **Wire determinacy.**  `wiredWire c P r` is the sequence of operations on the wire of register `r` (as wired, in wire order) —
+    what `reg_gate_history` shows, without node identities.  Two circuits that satisfy DagInv, hold plain operations, have the same
+    register counts and the same operation sequence on every wire admit schedules with the SAME operation list; so every
+    specification, hence every metric, takes the same value on both: the metrics are functions of the per-register operation
+    sequences and the register counts alone. -/
+theorem metrics_determined_by_wire_sequences {c c' : Dag} {P P' : Reg → List NodeId} (g : Good c P) (g' : Good c' P')
+    (hpl : AllPlain c) (hpl' : AllPlain c') (hregs : c'.regs = c.regs)
+    (hw : ∀ r, c.live r → wiredWire c' P' r = wiredWire c P r) :
+    ∃ ops, MetricsMeetSpec c ops ∧ MetricsMeetSpec c' ops := by
+  have hw' : ∀ r, wiredWire c' P' r = wiredWire c P r := by
+    intro r
+    by_cases hl : c.live r
+    · exact hw r hl
+    · have hl' : ¬ c'.live r := fun h => hl ((live_eq_of_regs hregs r).mp h)
+      unfold wiredWire
+      rw [g.inv.dead r hl, g'.inv.dead r hl']
+      rfl
+  obtain ⟨L, L', hS, hS', hmap⟩ := same_wiredWires_same_ops g g' hw'
+  refine ⟨L.map (·.2), metrics_eq_spec_on_any_schedule g hpl hS, ?_⟩
+  rw [← hmap]
+  exact metrics_eq_spec_on_any_schedule g' hpl' hS'
+
+/-- … spelled out: equal register counts and equal wire sequences give equal metric values -/
+theorem equal_wires_equal_metrics {c c' : Dag} {P P' : Reg → List NodeId} (g : Good c P) (g' : Good c' P')
+    (hpl : AllPlain c) (hpl' : AllPlain c') (hregs : c'.regs = c.regs)
+    (hw : ∀ r, c.live r → wiredWire c' P' r = wiredWire c P r) :
+    Metrics.cnotCount c' = Metrics.cnotCount c ∧ Metrics.measureCount c' = Metrics.measureCount c ∧
+    Metrics.unitaryCount c' = Metrics.unitaryCount c ∧ Metrics.circuitDepth c' = Metrics.circuitDepth c ∧
+    (∀ t, c'.calculateRegDepth t = c.calculateRegDepth t) ∧ Metrics.maxEmitDepth c' = Metrics.maxEmitDepth c ∧
+    Metrics.maxEmitResetDepth c' = Metrics.maxEmitResetDepth c ∧ Metrics.maxEmitEffDepth c' = Metrics.maxEmitEffDepth c := by
+  obtain ⟨ops, m, m'⟩ := metrics_determined_by_wire_sequences g g' hpl hpl' hregs hw
+  have hnE : c'.nE = c.nE := congrFun hregs .e
+  refine ⟨m'.cnot.trans m.cnot.symm, m'.measure.trans m.measure.symm, m'.unitary.trans m.unitary.symm, ?_, ?_,
+    ?_, ?_, ?_⟩
+  · by_cases hne : c.nodeIds ≠ []
+    · have hne' : c'.nodeIds ≠ [] := by
+        obtain ⟨r, hl⟩ := (nodes_nonempty_iff_register g).mp hne
+        exact (nodes_nonempty_iff_register g').mpr ⟨r, (live_eq_of_regs hregs r).mpr hl⟩
+      exact (m'.depth_model hne').trans (m.depth_model hne).symm
+    · have h0 : c.nodeIds = [] := by simpa using hne
+      have h0' : c'.nodeIds = [] := by
+        by_cases h : c'.nodeIds = []
+        · exact h
+        · obtain ⟨r, hl⟩ := (nodes_nonempty_iff_register g').mp h
+          exact absurd ((nodes_nonempty_iff_register g).mpr ⟨r, (live_eq_of_regs hregs r).mp hl⟩) hne
+      unfold Metrics.circuitDepth Dag.depth Dag.longestPathLen Dag.distTable
+      rw [h0, h0']
+      rfl
+  · intro t
+    rw [m'.register_depth t, m.register_depth t, hregs]
+  · rw [m'.max_emitter_depth, m.max_emitter_depth, hnE]
+  · rw [m'.reset_depth, m.reset_depth, hnE]
+  · rw [m'.effective_depth, m.effective_depth, hnE]
+
 /-! ### the theorems for `add`-built circuits are the special case "schedule = creation order" -/
 
 /-- a circuit built by `add` has the schedule "nodes in creation order" whose operation list is `seq` itself — so §2–§5 are
@@ -616,6 +697,16 @@ example : Metrics.circuitDepth histCircuit = 6 := by decide
 example : histCircuit.registerDepth.toOption = some ([2, 6], [3], [0]) ∧
     (List.range 2).map (fun i => Spec.regDepth (histSchedule.map (·.2)) ⟨.e, i⟩) = [2, 6] ∧
     Spec.regDepth (histSchedule.map (·.2)) ⟨.c, 0⟩ = 0 ∧ Spec.depth (histSchedule.map (·.2)) = 6 := by decide
+
+/-- wire determinacy, non-vacuity: `add(CNOT e0→e1); add(H p0)` and `add(H p0); add(CNOT e0→e1)` are different circuits (the node
+    identities are swapped) with the same register counts and the same operation sequence on every wire (kernel-evaluated on the
+    wires `reg_gate_history` returns) — the hypotheses of `equal_wires_equal_metrics` -/
+example : (build 2 1 0 [hP0, cnotEE]).1.nodes ≠ (build 2 1 0 [cnotEE, hP0]).1.nodes ∧
+    (build 2 1 0 [hP0, cnotEE]).1.regs = (build 2 1 0 [cnotEE, hP0]).1.regs ∧
+    ∀ r ∈ liveRegs (build 2 1 0 [cnotEE, hP0]).1,
+      wiredWire (build 2 1 0 [hP0, cnotEE]).1 (wireOf (build 2 1 0 [hP0, cnotEE]).1) r =
+        wiredWire (build 2 1 0 [cnotEE, hP0]).1 (wireOf (build 2 1 0 [cnotEE, hP0]).1) r := by
+  refine ⟨by decide, by funext t; cases t <;> rfl, by decide⟩
 
 /-- a chain of three operations in `seq2`: `CNOT e0→e1`, the wrapper on `e1`, the measurement on `e1, p0` -/
 example : Chain seq2 [cnotEE, wrapE1] mcr 3 :=
